@@ -36,6 +36,7 @@ def gen_cases(rng, tier):
     cases = []
     for _ in range(N[tier]):
         cases.append(PC.gen_history(rng, rng.choice([6, 12, 20, 30, 45]), "c01"))
+    cases += PC.gen_live(rng, {"quick": 150, "thorough": 3000, "search": 400}[tier])
     if tier == "thorough":
         pre = [["spawn", 5, 100, 1], ["new", 5]]
         for tail in _enum_after(pre, 4):
